@@ -66,6 +66,8 @@ F: Dict[str, Dict[str, Any]] = {
     'zope':         {'a': 'from zope.interface import Interface\nclass I15(Interface):\n    def m(): "doc"\n',
                      'b': 'from zope.interface import implementer\nfrom .a import I15\n@implementer(I15)\nclass B15:\n    def m(self): pass\n', 'c': 'from .a import I15\nclass I15c(I15): pass\n'},
     'docformat':    {'p': '__docformat__="restructuredtext"\n', 'b': '__docformat__="epytext"\ndef g16(): "L{x}"\n', 'c': 'def h16():\n    "`x`"\n'},
+    'docformat-fields': {'p': '__docformat__="restructuredtext"\n', 'a': '"""\nMod.\n\n:var v28: doc of v28\n"""\nv28 = 1\n', 'c': 'from p.a import v28\n'},
+    'docformat-fields-import': {'p': '__docformat__="restructuredtext"\n', 'b': '"""\nMod.\n\n:var v29: doc of v29\n"""\nv29 = 1\n', 'c': 'import p.b\nw29 = p.b.v29\n'},
     'doc-inherit':  {'c': 'class A26:\n    def f(self):\n        "inherited doc"\n', 'a': 'from .c import A26\nclass B26(A26):\n    def f(self): pass\n'},
     'cycle':        {'a': 'from .b import B17\nclass A17: pass\nclass A17b(B17): pass\n', 'b': 'from .a import A17\nclass B17(A17): pass\n', '__cyclic__': True},
     'cycle3':       {'a': 'from .b import B27\nclass A27(B27): pass\n', 'b': 'from .c import C27\nclass B27(C27): pass\n', 'c': 'from . import a\nclass C27: pass\nclass D27(a.A27): pass\n', '__cyclic__': True},
@@ -208,6 +210,8 @@ def dump(s: Any, hierarchy_only: bool) -> Dict[str, Any]:
                 e['docformat'] = o.docformat
             if isinstance(o, model.Function):
                 e['overloads'] = len(o.overloads)
+            if isinstance(o, model.Attribute):
+                e['documented-by-field'] = o.parsed_docstring is not None and o.docstring is None
             if hasattr(o, 'isinterface'):
                 e['isinterface'] = bool(getattr(o, 'isinterface', False))
                 e['implements'] = sorted(getattr(o, 'allImplementedInterfaces', []) or [])
